@@ -148,9 +148,15 @@ def resolve(tid):
     raise KeyError(tid)
 
 
+# edge trees in which Y does not depend on X (an added back edge closes no loop)
+NO_FORWARD_EDGE = {"E_multi_prompt"}
+
+
 def all_back_mutants():
     out = []
     for b in edges.ids():
+        if b in NO_FORWARD_EDGE:
+            continue
         base = edges.get(b)
         for kind in BACK_KINDS:
             try:
